@@ -101,6 +101,8 @@ type VC struct {
 	predDepth   int
 	inTypeInv   bool
 	compLeafT   map[string]types.Type
+	frameTargets map[string][]string
+	frameWhole  bool
 	epochAlloc  map[int]string
 }
 
@@ -126,6 +128,7 @@ func newVC(w *World, pkg *PkgInfo, fd *ast.FuncDecl, c *Contract) *VC {
 		vc.noSafety = c.NoSafety
 	}
 	vc.declare("Alloc0", "(Array Int Bool)")
+	vc.addAxiom("(not (select Alloc0 0))")
 	vc.declareFun("pr", "(Int Int) Int")
 	vc.declareFun("pr1", "(Int) Int")
 	vc.declareFun("pr2", "(Int) Int")
@@ -279,6 +282,14 @@ func (vc *VC) heapSymWF(sym, comp, sort, alloc string) {
 			facts = append(facts, app("<=", lo, cell, hi))
 		}
 	}
+	if T != nil {
+		if n := namedOf(T); n != nil {
+			if ti := vc.w.TypeInvs[n.Obj().Pkg().Path()+"."+n.Obj().Name()]; ti != nil {
+				tmp := &State{env: map[types.Object]*Value{}, heap: map[string]string{}, alloc: alloc, ghost: map[string]string{}}
+				facts = append(facts, vc.typeInvTerm(tmp, ti, intV(cell, T)))
+			}
+		}
+	}
 	if len(facts) == 0 {
 		return
 	}
@@ -359,9 +370,7 @@ func (vc *VC) loadShape(st *State, comp string, T types.Type, lvl int, acc func(
 	}
 	vc.compLeafT[comp] = T
 	h := vc.heapGet(st, comp, sortAt("Int", lvl))
-	v := intV(acc(h), T)
-	vc.assumeTypeInv(st, v)
-	return v
+	return intV(acc(h), T)
 }
 
 func (vc *VC) storeShape(st *State, comp string, T types.Type, lvl int, outer string, upd func(h, v string) string, val *Value) {
@@ -538,6 +547,7 @@ func (vc *VC) freshValue(st *State, hint string, T types.Type) *Value {
 	case shSlice:
 		v := &Value{K: VSlice, T: T, Arr: vc.fresh(hint+"_arr", "Int"), Off: vc.fresh(hint+"_off", "Int"), Len: vc.fresh(hint+"_len", "Int"), Cap: vc.fresh(hint+"_cap", "Int")}
 		vc.assumeSliceWF(st, v)
+		st.assume(smtOr(smtEq(v.Arr, "0"), sel(st.alloc, v.Arr)))
 		st.assume(smtImp(smtEq(v.Arr, "0"), smtEq(v.Len, "0")))
 		return v
 	}
